@@ -40,6 +40,72 @@ def run(ctx, sess):
             if len(vals) == 256 and all(v is not None for v in vals):
                 tables[name] = [v & 0xFFFFFFFF for v in vals]
     if len(tables) < 8:
+        # the tables are not constants: whether their contents are right cannot be decided here, but a reader that can run
+        # before the code that fills them is a verdict
+        lazy = [name for name, g in S.globals.items() if g.get('init') is None and (g.get('extent') in (256, 8) or 'able' in name)]
+        fillers = set()
+        for fn in S.all_functions():
+            if fn.file != k.file:
+                continue
+            for ev in fn.stores():
+                l0 = strip_casts(ev.store_parts()[0])
+                if ev.k == 'store' and l0.get('op') == 'sub' and any(m.get('op') == 'ref' and m.get('rk') == 'global' and m.get('name') in lazy for m in walk(l0)):
+                    fillers.add(fn.name)
+        if lazy and fillers:
+            ctx.rule('C18.7', 'tables that are filled at run time are filled before they are read: every function of the table-driven implementation that reads such a table (directly or through its kernel) calls the code that fills it on every path before the read')
+            reach_fill = set(fillers)
+            grew = True
+            while grew:
+                grew = False
+                for fn in S.all_functions():
+                    if fn.file == k.file and fn.name not in reach_fill and any(c.callee in reach_fill for c in fn.calls()):
+                        reach_fill.add(fn.name)
+                        grew = True
+            readers = set()
+            for fn in S.all_functions():
+                if fn.file != k.file or fn.name in fillers:
+                    continue
+                for b in fn.blocks.values():
+                    for ev in b.events:
+                        e = getattr(ev, 'e', None)
+                        if e is not None and any(m.get('op') == 'sub' and any(x.get('op') == 'ref' and x.get('rk') == 'global' and x.get('name') in lazy for x in walk(m['k'][0])) for m in walk(e)):
+                            readers.add(fn.name)
+            bad = []
+            # the flag idiom `if (!ready) fill();`: a test of a global that the filling code sets counts as the call
+            flags_ = set()
+            for fname in fillers:
+                for ev in S.functions[fname].stores():
+                    l0 = strip_casts(ev.store_parts()[0])
+                    if ev.k == 'store' and l0.get('op') == 'ref' and l0.get('rk') == 'global':
+                        flags_.add(l0['name'])
+
+            def flag_test(b, facts):
+                return 'stop' if (b.cond is not None and any(m.get('op') == 'ref' and m.get('rk') == 'global' and m.get('name') in flags_ for m in walk(b.cond)) and
+                                  any(c_.callee in reach_fill for s_, _ in b.succs for c_ in s_.events if c_.k == 'call')) else None
+            for fn in S.all_functions():
+                if fn.file != k.file or not getattr(fn, 'api', False) and fn.static:
+                    continue
+                uses = [c for c in fn.calls() if c.callee in readers]
+                direct = fn.name in readers
+                if not uses and not direct:
+                    continue
+                if direct:
+                    first = None
+                    w = find_path(fn, 'entry', lambda e2, facts: 'stop' if (e2.k == 'call' and e2.callee in reach_fill) else
+                                  ('target' if (getattr(e2, 'e', None) is not None and any(m.get('op') == 'sub' and any(x.get('op') == 'ref' and x.get('rk') == 'global' and x.get('name') in lazy for x in walk(m['k'][0])) for m in walk(e2.e))) else None), refine=False, on_block_end=flag_test)
+                    ctx.ob('C18.7', w is None, fn.name, 'tables filled before they are read', fn.where(),
+                           'the filling code is called on every path before the first table load' if w is None else
+                           'a table load can be reached before the code that fills the tables ran: the first call of this function in a process computes its CRC from zeroed tables', w.render() if w else None)
+                for c in uses:
+                    w = find_path(fn, 'entry', lambda e2, facts, c=c: 'stop' if (e2.k == 'call' and e2.callee in reach_fill and e2 is not c) else ('target' if e2 is c else None), refine=False, on_block_end=flag_test)
+                    if c.callee in reach_fill:
+                        w = None
+                    ctx.ob('C18.7', w is None, fn.name, 'tables filled before %s reads them' % c.callee, c.where(),
+                           'the filling code is called on every path before the kernel' if w is None else
+                           'the kernel is reached before the code that fills the tables ran', w.render() if w else None)
+            if any(not o['ok'] for o in ctx.obligations):
+                ctx.note('C18.1: the tables are generated at run time, their contents are not decided')
+                return
         raise AnalysisBroken('CRC tables found in the table-driven configuration: %s' % sorted(tables))
     ref = [gf2.slice_table(i, POLY) for i in range(8)]
     slice_of = {}
